@@ -50,7 +50,7 @@ pub struct PointReplay {
 }
 
 pub fn eval_point(p: &PointReplay) -> Result<PointInfo, String> {
-    raindb::verif::set_level_base_bytes(p.level_base);
+    crate::engine::set_level_limits(p.level_base);
     let img = Arc::new(MemFs::from_journal(&p.journal, p.k, p.torn, false));
     let accept: Vec<Model> = p.accept.iter().map(|m| m.iter().cloned().collect()).collect();
     check_recovery(img, p.cfg, &accept, &p.universe, &p.plan, p.counter)
